@@ -179,8 +179,53 @@ pub fn c01(s: &mut Sess, seed: u64, tier: &str) {
     }
 }
 
+/// Every subset of a two-level universe built as a map under cache geometries that evict all the
+/// time, probed with every key of the universe, its prefixes and one-byte extensions.
+fn lookups_two_level(s: &mut Sess, tier: &str) {
+    let mut uni: Vec<Vec<u8>> = vec![];
+    for &st in b"1234" {
+        for &en in b"dj" {
+            uni.push(vec![st, en]);
+        }
+    }
+    uni.sort();
+    let mut probes: Vec<Vec<u8>> = vec![vec![]];
+    for k in &uni {
+        probes.push(k.clone());
+        probes.push(k[..1].to_vec());
+        let mut e = k.clone();
+        e.push(b'd');
+        probes.push(e);
+    }
+    probes.sort();
+    probes.dedup();
+    let geos: &[Option<(usize, usize)>] = &[Some((1, 1)), Some((1, 2)), Some((2, 2)), Some((1, 3))];
+    let mut count = 0usize;
+    for mask in 0u32..(1u32 << uni.len()) {
+        let keys: Vec<Vec<u8>> = (0..uni.len()).filter(|i| mask & (1 << i) != 0).map(|i| uni[i].clone()).collect();
+        for (gi, geo) in geos.iter().enumerate() {
+            let _ = (gi, tier);
+            if count % 24 == 0 {
+                s.reset();
+            }
+            count += 1;
+            let items: Vec<Kv> = keys.iter().enumerate().map(|(i, k)| (k.clone(), [10u64, 20, 20, 30, 40, 2650, 22, 0][(i + mask as usize) % 8])).collect();
+            if let Some(f) = s.build(Front::MapInsert, &items, *geo) {
+                for (pi, p) in probes.iter().enumerate() {
+                    match (pi + count) % 3 {
+                        0 => s.get(f, p, "map"),
+                        1 => s.contains(f, p, "set"),
+                        _ => s.get(f, p, "raw"),
+                    }
+                }
+            }
+        }
+    }
+}
+
 pub fn c02(s: &mut Sess, seed: u64, tier: &str) {
     let mut r = rng(seed, 2);
+    lookups_two_level(s, tier);
     let ins = inputs(&mut r, tier, true);
     let mut nin = 0usize;
     for (_name, keys) in ins {
